@@ -39,6 +39,10 @@ type env struct {
 	h      *httpEnv
 	lnCopy net.Listener // accepted connections have a local port configured for the copy service
 	lnDNS  net.Listener // ... for dns-proxy over tcp
+	// the same on ports that the proxy SHARES with a detector service listed before it: the
+	// server peeks, the detector declines, the proxy is handed the peek wrapper
+	lnCopyS net.Listener
+	lnDNSS  net.Listener
 }
 
 const (
@@ -50,6 +54,8 @@ const (
 	pDNS
 	pCopyL
 	pDNSL
+	pCopyS
+	pDNSS
 	nPorts
 )
 
@@ -83,6 +89,12 @@ func startEnv(out string) *env {
 	if e.lnDNS, err = net.Listen("tcp", fmt.Sprintf("127.0.0.1:%d", e.ports[pDNSL])); err != nil {
 		hx.Fatal("listen: %v", err)
 	}
+	if e.lnCopyS, err = net.Listen("tcp", fmt.Sprintf("127.0.0.1:%d", e.ports[pCopyS])); err != nil {
+		hx.Fatal("listen: %v", err)
+	}
+	if e.lnDNSS, err = net.Listen("tcp", fmt.Sprintf("127.0.0.1:%d", e.ports[pDNSS])); err != nil {
+		hx.Fatal("listen: %v", err)
+	}
 	var sb strings.Builder
 	sb.WriteString("[listener]\ntype=\"c15-inj\"\n\n")
 	fmt.Fprintf(&sb, "[director.fwd]\ntype=\"forward\"\nhost=\"127.0.0.1:%d\"\n\n", e.ports[pHTTP])
@@ -102,6 +114,14 @@ func startEnv(out string) *env {
 	sb.WriteString("[[port]]\nport=\"tcp/7000\"\nservices=[\"cp\"]\n\n")
 	fmt.Fprintf(&sb, "[[port]]\nport=\"tcp/%d\"\nservices=[\"cp\"]\n\n", e.ports[pCopyL])
 	fmt.Fprintf(&sb, "[[port]]\nport=\"tcp/%d\"\nservices=[\"dp\"]\n\n", e.ports[pDNSL])
+	// shared ports: a service with a detector (which never accepts) is listed first
+	sb.WriteString("[service.det]\ntype=\"verif-stub-det\"\nname=\"det\"\nprefix=\"\\u0000\\u0001never-sent\"\n\n")
+	sb.WriteString("[[port]]\nport=\"tcp/8081\"\nservices=[\"det\",\"hp\"]\n\n")
+	sb.WriteString("[[port]]\nport=\"tcp/2222\"\nservices=[\"det\",\"sp\"]\n\n")
+	sb.WriteString("[[port]]\nport=\"udp/7001\"\nservices=[\"det\",\"cp\"]\n\n")
+	sb.WriteString("[[port]]\nport=\"udp/54\"\nservices=[\"det\",\"dp\"]\n\n")
+	fmt.Fprintf(&sb, "[[port]]\nport=\"tcp/%d\"\nservices=[\"det\",\"cp\"]\n\n", e.ports[pCopyS])
+	fmt.Fprintf(&sb, "[[port]]\nport=\"tcp/%d\"\nservices=[\"det\",\"dp\"]\n\n", e.ports[pDNSS])
 	sb.WriteString("[[port]]\nport=\"udp/7000\"\nservices=[\"cp\"]\n\n")
 	sb.WriteString("[[port]]\nport=\"udp/53\"\nservices=[\"dp\"]\n\n")
 	sb.WriteString("[[port]]\nport=\"tcp/53\"\nservices=[\"dp\"]\n\n")
@@ -199,6 +219,9 @@ func runHTTPPart(o hx.Opts, r *hx.Rand, e *env, replay *Input) {
 			if in.RealTCP {
 				dist["client-leg-real-tcp"]++
 			}
+			if in.Shared {
+				dist["shared-port"]++
+			}
 			tot := 0
 			for _, m := range in.Msgs {
 				tot += len(m)
@@ -244,6 +267,7 @@ func genHTTPInputs(o hx.Opts, r *hx.Rand) []HttpInput {
 		small := r.Chance(3, 5)
 		in := genLockstep(r, id(), r.PickInt([]int{1, 1, 2, 3, 4}), small)
 		in.NoPort = r.Chance(1, 5)
+		in.Shared = r.Chance(1, 3)
 		in.RealTCP = r.Chance(1, 6)
 		in.Group = group
 		if r.Chance(1, 2) {
@@ -291,6 +315,43 @@ func genHTTPInputs(o hx.Opts, r *hx.Rand) []HttpInput {
 		add(in)
 	}
 	group++
+	{
+		// the exchange after n good ones fails, in every way x every way of writing the stream
+		k := 0
+		for _, how := range []string{"fin", "rst", "bad", "cut"} {
+			reps := 4
+			if o.Tier != "quick" {
+				reps = 16
+			}
+			for j := 0; j < reps; j++ {
+				in := genNextFails(r, id(), how, j, 1+(j*37+k*11)%300)
+				in.Group = group
+				in.RealTCP = j%3 == 0
+				in.Shared = j%4 == 1
+				if k%4 == 3 {
+					group++
+				}
+				k++
+				add(in)
+			}
+		}
+		if o.Tier != "quick" {
+			// an incomplete request n+1 cut at EVERY point
+			g := genRequest(r, "x", true, false)
+			for len(g.raw) > 300 {
+				g = genRequest(r, "x", true, false)
+			}
+			for c := 1; c < len(g.raw); c++ {
+				in := genNextFails(r, id(), "cut", c%3, c)
+				in.Group = group
+				if c%4 == 3 {
+					group++
+				}
+				add(in)
+			}
+		}
+	}
+	group++
 	for i := 0; i < nMal/2; i++ {
 		in := genOversend(r, id())
 		in.Group = group
@@ -335,6 +396,12 @@ func corpusPipelinedOneWrite(id string) HttpInput {
 // httpKind: the case kind (known findings are limited to kinds); a half-closing client is a
 // lock-step or pipelining client that shuts its sending side down early.
 func httpKind(in HttpInput) string {
+	if in.Class == "nextfails" {
+		if lockstepItems(in) {
+			return "http-lockstep"
+		}
+		return "http-pipelined"
+	}
 	if in.Class == "halfclose" {
 		if len(in.Msgs) > 1 {
 			return "http-pipelined"
@@ -342,4 +409,14 @@ func httpKind(in HttpInput) string {
 		return "http-lockstep"
 	}
 	return "http-" + in.Class
+}
+
+func lockstepItems(in HttpInput) bool {
+	waits := 0
+	for _, it := range in.Items {
+		if it.Wait > 0 {
+			waits++
+		}
+	}
+	return waits >= len(in.Msgs)
 }
